@@ -33,6 +33,9 @@ type Case struct {
 	Remotes   []int     `json:"remotes,omitempty"` // udp: datagrams per remote
 	DgSizes   []int     `json:"dg_sizes,omitempty"`
 	Window    int       `json:"udp_window,omitempty"`
+	// OutBacklog: bytes the engine side writes to every stream connection before the inbound traffic
+	// starts; the peers do not read them, so a write backlog is pending while data comes in
+	OutBacklog int `json:"out_backlog,omitempty"`
 }
 
 const window = 4 * time.Second
@@ -171,7 +174,11 @@ func runCase(c Case) vlib.Result {
 	var peers []net.Conn
 	var sts []*connState
 	for i := range c.Conns {
-		a, peer, err := vlib.StreamPair(c.Transport, 0, 0)
+		sndbuf := 0
+		if c.OutBacklog > 0 {
+			sndbuf = 8192
+		}
+		a, peer, err := vlib.StreamPair(c.Transport, sndbuf, sndbuf)
 		if err != nil {
 			return vlib.Fail("harness: socket pair: %v", err)
 		}
@@ -186,6 +193,11 @@ func runCase(c Case) vlib.Result {
 		mu.Unlock()
 		if _, err := g.AddConn(nbc); err != nil {
 			return vlib.Fail("harness: AddConn: %v", err)
+		}
+		if c.OutBacklog > 0 {
+			if n, err := nbc.Write(make([]byte, c.OutBacklog)); err != nil || n != c.OutBacklog {
+				return vlib.Fail("harness: backlog write returned (%d, %v)", n, err)
+			}
 		}
 		peers = append(peers, peer)
 		sts = append(sts, st)
@@ -233,7 +245,11 @@ func runCase(c Case) vlib.Result {
 		res.Err = fmt.Errorf("%d bytes were sent to live connections but only %d were handed to the data callback; nothing more for %v", total, got, window)
 		return res
 	}
-	if err := idleCheck(&res); err != nil {
+	if c.OutBacklog > 0 {
+		res.Classes = append(res.Classes, "write-backlog-pending-during-reads")
+		// with a pending backlog in LT mode the armed write event makes epoll_wait return at once for
+		// as long as the peer does not read: that is not an idle state, so the idle oracle is skipped
+	} else if err := idleCheck(&res); err != nil {
 		res.Err = err
 		return res
 	}
@@ -241,6 +257,9 @@ func runCase(c Case) vlib.Result {
 	if got := atomic.LoadInt64(&delivered); got != total {
 		res.Err = fmt.Errorf("%d bytes sent, %d delivered (duplicates)", total, got)
 		return res
+	}
+	if c.OutBacklog > 0 {
+		res.NonTrivial = true
 	}
 	nonDefault := c.Mode != vlib.ModeLT || c.Async || c.Exec != "default" || c.ReadBuf != 65536 || c.MaxReads != 3
 	for _, bursts := range c.Conns {
@@ -459,6 +478,12 @@ func cells() []Case {
 						c.Conns = [][]Burst{{{Size: 100000}, {Size: 1, GapUs: 2000}, {Size: 30000, GapUs: 100}}, {{Size: 50000}}}
 					}
 					out = append(out, c)
+					if tr == "tcp" && ex == "default" {
+						cb := c
+						cb.OutBacklog = 1 << 20
+						cb.Conns = [][]Burst{{{Size: 100}, {Size: 5000, GapUs: 20000}, {Size: 1, GapUs: 20000}, {Size: 70000, GapUs: 20000}}}
+						out = append(out, cb)
+					}
 				}
 			}
 		}
@@ -506,6 +531,17 @@ func gen(t *rapid.T) Case {
 			bursts = append(bursts, Burst{Size: size, GapUs: rapid.SampledFrom([]int{0, 0, 20, 200, 1000, 5000}).Draw(t, "gapus")})
 		}
 		c.Conns = append(c.Conns, bursts)
+	}
+	if rapid.IntRange(0, 2).Draw(t, "outbacklog") == 0 {
+		c.OutBacklog = rapid.SampledFrom([]int{100000, 1 << 20, 4 << 20}).Draw(t, "outbacklogsize")
+		// paced inbound traffic, so that several separate read events happen while the backlog is pending
+		for i := range c.Conns {
+			for j := range c.Conns[i] {
+				if c.Conns[i][j].GapUs < 1000 {
+					c.Conns[i][j].GapUs = 2000
+				}
+			}
+		}
 	}
 	return c
 }
